@@ -73,7 +73,12 @@ class DocGen:
             return self.g_variable(t)
         v = g2.g_value(c, m, t, 2)
         lit = g5.value_to_lit(m, t, v)
-        if k == 3 and lit["k"] in ("list", "obj"):
+        if c.chance(70):
+            lit2 = g5.unwrap_singletons(c, m, t, lit)
+            if lit2 != lit:
+                self.features.add("bare-item-for-list")
+                lit = lit2
+        if k <= 4 and lit["k"] in ("list", "obj"):
             lit = self.insert_vars(t, lit)
         return lit
 
@@ -426,7 +431,8 @@ def g_variable_values(c, m, vars_, mode="valid"):
 
 MUTATIONS = ["weaken-variable", "perturb-literal", "drop-required-arg", "retarget-condition",
              "rename-field", "leaf-subselection", "drop-subselection", "nullable-var-in-list",
-             "duplicate-key", "undeclared-variable", "unknown-argument", "weaken-inner-variable"]
+             "duplicate-key", "undeclared-variable", "unknown-argument", "weaken-inner-variable",
+             "nullable-var-deep", "nullable-var-deep"]
 STRUCTURAL = ["fragment-cycle", "unknown-fragment", "duplicate-definition", "root-spread"]
 
 
@@ -446,6 +452,47 @@ def _walk_fields(tree):
         if d["k"] in ("op", "frag"):
             walk(d["sel"])
     return out
+
+
+def _walk_typed_fields(m, tree):
+    """[(selection dict, field definition of the model, owning definition)] for the field selections
+    whose definition the model knows."""
+    out = []
+
+    def walk(sel, parent, owner):
+        for s in sel or []:
+            if s["k"] == "field":
+                pdef = m.get(parent) if parent else None
+                fdef = next((f for f in (pdef or {}).get("fields", []) if f["name"] == s["n"]), None)
+                if fdef is not None:
+                    out.append((s, fdef, owner))
+                walk(s["sel"], named(fdef["type"]) if fdef else None, owner)
+            elif s["k"] == "inline":
+                walk(s["sel"], s["on"] or parent, owner)
+    for d in tree["defs"]:
+        if d["k"] == "op":
+            walk(d["sel"], m["query" if d.get("short") else d["op"]], d)
+        elif d["k"] == "frag":
+            walk(d["sel"], d["on"], d)
+    return out
+
+
+def _typed_positions(m, t, lit, out, holder, key):
+    """All (holder, key, type) positions inside a literal, through bare items standing for lists."""
+    out.append((holder, key, t))
+    tt = nullable(t) if is_nn(t) else t
+    if not isinstance(tt, str):
+        if lit["k"] == "list":
+            for i, x in enumerate(lit["vs"]):
+                _typed_positions(m, tt[1], x, out, lit["vs"], i)
+        elif lit["k"] not in ("null", "var"):
+            out.pop()  # the bare item itself is offered once, as an item
+            _typed_positions(m, tt[1], lit, out, holder, key)
+    elif lit["k"] == "obj" and m.kind(tt) == "input":
+        ft = {f["name"]: f["type"] for f in m.get(tt)["fields"]}
+        for pair in lit["fs"]:
+            if pair[0] in ft:
+                _typed_positions(m, ft[pair[0]], pair[1], out, pair, 1)
 
 
 def mutate_document(c, m, doc):
@@ -519,6 +566,28 @@ def mutate_document(c, m, doc):
                 if not a[1]["fs"]:
                     return None
                 a[1]["fs"][c.pick(len(a[1]["fs"]))][1] = {"k": "var", "n": name}
+        elif kind == "nullable-var-deep":
+            # a variable of the *nullable* type of a position anywhere inside an argument literal
+            # (list items, input object fields, OneOf members, bare items standing for a list of one)
+            typed = [(s, f, o) for s, f, o in _walk_typed_fields(m, tree)
+                     if any(a[1]["k"] in ("list", "obj") for a in s["args"])]
+            s, fdef, owner = c.choose(typed)
+            a = c.choose([a for a in s["args"] if a[1]["k"] in ("list", "obj")])
+            adef = next(x for x in fdef["args"] if x["name"] == a[0])
+            pos = []
+            _typed_positions(m, adef["type"], a[1], pos, a, 1)
+            holder, key, pt = c.choose(pos[1:] or pos)
+            if holder[key]["k"] == "var":
+                return None
+            vt = nullable(pt) if (is_nn(pt) and c.chance(200)) else pt
+            targets = [owner] if owner["k"] == "op" else ops
+            if not targets or any(o.get("short") for o in targets):
+                return None
+            name = "w" + str(max(len(o["vars"]) for o in targets))
+            for op in targets:
+                op["vars"].append({"desc": None, "n": name, "t": _g1_type(vt), "default": None, "dirs": []})
+                d["vars"][op["n"]][name] = {"t": vt, "default": None}
+            holder[key] = {"k": "var", "n": name}
         elif kind == "duplicate-key":
             s, owner = c.choose(fields)
             other, _o2 = c.choose(fields)
